@@ -20,9 +20,9 @@ CLAIMS = {
     },
     "C02": {
         "category": "exploration",
-        "technique": "reference-model oracle (CPython decimal as decimal128 + exact rational arithmetic) over observed operations, replayed under AddressSanitizer with the decNumber C sources instrumented",
-        "text": "Operand tuples from every sign / coefficient-length / exponent-band / shape class, related operands and constructed exact ties are executed for all 21 operations both directly on FeelNumber and as FEEL expressions; each result is compared with the correctly rounded decimal128 result (2 ulp for exp, log, inexact powers), non-finite results and missing nulls are flagged; the workload is replayed on an ASan build (C writes + all Rust accesses instrumented) and, in the thorough tier, a slice under valgrind memcheck.",
-        "note": "Trusts libmpdec configured as decimal128 and Python Fraction. decNumber's deliberate <=3-byte over-reads of its own stack buffers are not instrumented (documented in lib/runner.py and DESIGN.md). ASan-clean is not memory safety.",
+        "technique": "reference-model oracle (CPython decimal as decimal128 + exact rational arithmetic) over observed operations, replayed under AddressSanitizer with the decNumber C sources instrumented and (a slice) under valgrind memcheck",
+        "text": "Operand tuples from every sign / coefficient-length / exponent-band / shape class, related operands and constructed exact ties are executed for all 21 operations both directly on FeelNumber and as FEEL expressions; each result is compared with the correctly rounded decimal128 result (2 ulp for exp, log, inexact powers), non-finite results and missing nulls are flagged; the workload is replayed on an ASan build (C writes + all Rust accesses instrumented) and a stride of it (quick 6 batches, thorough 160) under valgrind memcheck, which sees invalid reads and uninitialised values that reach Rust code.",
+        "note": "Trusts libmpdec configured as decimal128 and Python Fraction. decNumber's deliberate <=3-byte over-reads of its own stack buffers are not instrumented (documented in lib/runner.py and DESIGN.md); memcheck's uninitialised-value reports whose innermost frame is a decNumber function are suppressed for the same reason (harness/valgrind.supp), address errors never. ASan-clean is not memory safety.",
         "design_ref": "DESIGN.md §3 C02",
     },
     "C03": {
@@ -36,7 +36,7 @@ CLAIMS = {
         "category": "exploration",
         "technique": "reference-model oracle (topological evaluation of the generated requirement graph with R-FEEL) + metamorphic irrelevance monitor over observed evaluate_invocable calls",
         "text": "Generated acyclic requirement graphs (1-4 typed inputs, 2-8 decisions of every boxed kind: literal, context with and without result entry, invocation, relation, function, decision table; 0-3 knowledge models with literal / context / table bodies and BKM->BKM requirements, invoked by literal call and by boxed invocation; 0-2 decision services with input / encapsulated / output decisions, used as invocables and as functions; forced shapes diamond, BKM chain, service, decision required directly and through a service, several output decisions) are written as DMN XML and loaded by the real parser and ModelEvaluator; every invocable is called with 8 input contexts (full, partial, nulls, wrongly typed, empty) and with the same contexts padded by entries outside its requirement closure; each value is compared with the reference evaluation and the padded result with the unpadded one. Quick 3000 models (~290k calls), thorough 60000.",
-        "note": "Reference = lib/gdrg.py + lib/rfeel.py; logic is drawn from an arithmetic / string / list fragment in which R-FEEL is unambiguous; non-conforming arguments for typed formal parameters are undecided; entries named like a required decision or knowledge model are not generated.",
+        "note": "Reference = lib/gdrg.py + lib/rfeel.py; logic is drawn from an arithmetic / string / list fragment in which R-FEEL is unambiguous; non-conforming arguments for typed formal parameters are undecided; entries named like a required decision or knowledge model are not generated; entries named like the invoked element itself and like elements outside its closure are.",
         "design_ref": "DESIGN.md §3 C04",
     },
     "C05": {
@@ -55,9 +55,9 @@ CLAIMS = {
     },
     "C07": {
         "category": "exploration",
-        "technique": "in-driver runtime oracle (digit-string arithmetic) over an exponent x length x shape sweep + independent Python Decimal / strict JSON cross-check, replayed under ASan",
+        "technique": "in-driver runtime oracle (digit-string arithmetic) over an exponent x length x shape sweep + independent Python Decimal / strict JSON cross-check, replayed under ASan and (a stride) under valgrind memcheck",
         "text": "For every exponent (thorough: all of -6176..6111; quick: bands around 0 and both range ends plus a stride) x coefficient length 1..34 x 4 shapes x both signs, the real FeelNumber is printed with to_string and jsonify and read back; the driver checks the text is a plain decimal / JSON number denoting exactly the value and round-trips; a seeded sample is also pushed through FEEL literals and xsd:decimal conversion and cross-checked in Python.",
-        "note": "Expected values come from shifting the decimal point in the digit string, independent of the code under test; the ASan replay watches the 43-byte string buffer at the FFI boundary.",
+        "note": "Expected values come from shifting the decimal point in the digit string, independent of the code under test; the ASan and memcheck replays watch the 43-byte string buffer and the C string conversions at the FFI boundary.",
         "design_ref": "DESIGN.md §3 C07",
     },
     "C09": {
@@ -145,7 +145,7 @@ CLAIMS["C10"] = {
 }
 CLAIMS["C13"] = {
     "category": "exploration",
-    "technique": "runtime invariant monitors next to the observed state (scope snapshot before / after parse and evaluate, around decision-table evaluators, input-context snapshot around evaluate_invocable) + history checker over repeated interleaved evaluations",
+    "technique": "runtime invariant monitors next to the observed state (scope snapshot before / after parse and evaluate, around decision-table evaluators, input-context snapshot around evaluate_invocable) + history checker over repeated interleaved evaluations (each compared with the same evaluation made alone on a freshly prepared evaluator)",
     "text": "Expressions forced through the constructs that push temporary contexts (context literals, filters, for / some / every, invocations, unary tests, paths) are parsed and evaluated 3x in scopes of 1-4 layers while the driver renders the scope before the parse, after it and after every evaluation; successful parses through all six entry points are checked the same way; histories of 200-2000 steps evaluate 8 prepared evaluators over 4 long-lived scopes in random order and compare every observation with the first one of the same pair and the scope with its initial rendering; generated DMN models (boxed contexts, invocations, BKMs, services, tables) have every (invocable, input) pair called 3x interleaved in random order with the input context rendered before and after.",
     "note": "The scope's Display rendering is taken as a faithful witness of its contents; values depending on the current date are not generated.",
     "design_ref": "DESIGN.md §3 C13",
@@ -153,7 +153,7 @@ CLAIMS["C13"] = {
 
 CLAIMS["C20"] = {
     "category": "exploration",
-    "technique": "concurrency stress (free phase with hook-injected delays, hammer phase on one invocable with few identical inputs, rendezvous monitor), logical-clock event log checked against sequential expectations, lock-poison probe, cross-talk tags; ThreadSanitizer build with the decNumber C sources instrumented",
+    "technique": "concurrency stress (free phase with hook-injected delays, hammer phase on one invocable with few identical inputs, rendezvous monitor), logical-clock event log checked against expectations computed for every call alone (fresh evaluator on a fresh thread), lock-poison probe, cross-talk tags; ThreadSanitizer build with the decNumber C sources instrumented",
     "text": "One Arc<ModelEvaluator> per model (regular-expression, numeric and temporal-with-zones decisions, a boxed context using a knowledge model, a decision service; generated graphs with nested decisions, BKM chains, tables and services) is shared by 2, 3, 4, 8 and 16 threads released by a start barrier, each running a seeded permutation of 60-400 calls while the model-evaluator verification hook injects seeded yields / spins / sleeps after the read guards are taken; every call is logged against one logical clock and its result compared with the sequential result of the same (invocable, input); each repetition ends with rendezvous rounds in which the hook holds K = thread-count evaluations inside the evaluator simultaneously (impossible if any write lock were taken on the path), then the nine locks are probed for poison and the hook payloads for another call's tag. The same workload runs on a ThreadSanitizer build (std rebuilt, C sources instrumented); reports with dmntk or decNumber frames are violations. Quick 40 repetitions (~45k call events, ~280k overlapping pairs, concurrency up to 16), thorough 1500.",
     "note": "Only the interleavings that occurred are covered. Termination is bounded progress (gate 20 s, repetition 180 s, re-run alone 300 s). If the TSan build is unavailable the check says so and decides on the dbg build only.",
     "design_ref": "DESIGN.md §3 C20",
